@@ -173,35 +173,56 @@ def drive_and_validate(wd, drivebin, behaviours, invariants, props):
             if c:
                 chunks["c%d" % ci] = c
                 ci += 1
-    procs = []
+    # a network of four real nodes holds twelve in-memory badger stores: at most eight driver processes at a time
+    todo = []
     for key, bs in chunks.items():
         d = os.path.join(wd, key)
         os.makedirs(d, exist_ok=True)
         with open(os.path.join(d, "beh.ndjson"), "w") as f:
             for b in bs:
                 f.write(json.dumps(b) + "\n")
-        procs.append((key, d, subprocess.Popen([drivebin, "gossip", "beh.ndjson", "trace.ndjson"], cwd=d,
-                                               stdout=subprocess.PIPE, stderr=subprocess.DEVNULL,
-                                               env=dict(os.environ, GOMEMLIMIT=os.environ.get("GOMEMLIMIT", "1500MiB")))))
-    for key, d, p in procs:
-        try:
-            p.communicate(timeout=1800)
-        except subprocess.TimeoutExpired:
-            p.kill()
-            raise Inconclusive("gossip driver timed out on " + key)
-        if p.returncode != 0:
-            raise Inconclusive("gossip driver failed on %s (rc=%s)" % (key, p.returncode))
-    jobs = []
+        todo.append((key, d))
+    running = []
+    while todo or running:
+        while todo and len(running) < max(2, NCPU // 2):
+            key, d = todo.pop(0)
+            running.append((key, d, time.time(), subprocess.Popen(
+                [drivebin, "gossip", "beh.ndjson", "trace.ndjson"], cwd=d, stdout=subprocess.DEVNULL,
+                stderr=open(os.path.join(d, "stderr.log"), "w"),
+                env=dict(os.environ, GOMEMLIMIT=os.environ.get("GOMEMLIMIT", "1500MiB"), GOTRACEBACK="all"))))
+        still = []
+        for key, d, t0, p in running:
+            if p.poll() is None:
+                if time.time() - t0 > 1800:
+                    p.kill()
+                    raise Inconclusive("gossip driver timed out on " + key)
+                still.append((key, d, t0, p))
+            elif p.returncode != 0:
+                raise Inconclusive("gossip driver failed on %s (rc=%s)" % (key, p.returncode))
+        running = still
+        if running:
+            time.sleep(0.1)
+    pending = []
     for key, bs in chunks.items():
         d = os.path.join(wd, key)
         copy_specs(d, ["GossipNet.tla", "GossipNetTrace.tla"])
         const = {"Node": "<- TNode", "Bad": "<- TBad", "Item": "<- TItem", "Kind": "<- TKind", "Parent": "<- TParent",
                  "Origin": "<- TOrigin", "MaxDup": "1000", "MaxForge": "1000", "MaxExpire": "1000", "AllowPoison": "TRUE", "TraceFile": '"trace.ndjson"'}
         write_cfg(os.path.join(d, "t.cfg"), "TSpec", const, invariants + ["Conforms"], props, postcondition="Accepted")
-        fo = open(os.path.join(d, "tlc.out"), "w")
-        jobs.append((key, d, subprocess.Popen(["java", "-Xss32m", "-Xmx3g", "-cp", TLC_CP, "tlc2.TLC", "-workers", "1", "-metadir",
-                                               os.path.join(d, "meta"), "-config", "t.cfg", "GossipNetTrace.tla"], cwd=d,
-                                              stdout=fo, stderr=subprocess.STDOUT)))
+        pending.append((key, d))
+    jobs, live = [], []
+    while pending or live:
+        while pending and len(live) < max(2, NCPU - 2):
+            key, d = pending.pop(0)
+            fo = open(os.path.join(d, "tlc.out"), "w")
+            p = subprocess.Popen(["java", "-Xss32m", "-Xmx2g", "-cp", TLC_CP, "tlc2.TLC", "-workers", "1", "-metadir",
+                                  os.path.join(d, "meta"), "-config", "t.cfg", "GossipNetTrace.tla"], cwd=d,
+                                 stdout=fo, stderr=subprocess.STDOUT)
+            jobs.append((key, d, p))
+            live.append(p)
+        live = [p for p in live if p.poll() is None]
+        if live:
+            time.sleep(0.1)
     violations, nev, acts = [], 0, {}
     for key, d, p in jobs:
         p.wait(timeout=1800)
